@@ -51,6 +51,11 @@ Definition on_idx (d : bytes) (i : Z) (f : Z -> phase) : phase :=
   match idx d i with Ok b => f b | Err e => PDone (Err e) | Crash c => PDone (Crash c) | Hang => PDone Hang end.
 
 Definition tagerr (e : Z) : phase := PDone (Err (TagCommandError e)).
+(* inside the repaired WTX loops (HEAD, fixes/c08-03): if len(data) < 2: raise nfc.clf.ProtocolError, which the
+   enclosing try turns into Type4TagCommandError(PROTOCOL_ERROR); otherwise data[1] is read (wtx_timeout) and the
+   S(WTX) block is echoed: [if len d <? 2 then tagerr E_PROTOCOL else on_idx d 1 ..] in pcd_absorb.
+   The pinned code (flags off) reads data[1] unguarded: [on_idx], IndexError. *)
+
 
 (* more = len(command) - offset > self.miu ; pfb = pack('B', (0x02, 0x12)[more] | self.pni) *)
 Definition more_at (k : cfg) (cmd : bytes) (off : Z) : bool := len cmd - off >? miu k.
@@ -108,7 +113,7 @@ Definition pcd_absorb (k : cfg) (cmd : bytes) (p : pcd) (a : aresult) : pcd :=
           | Ok b0 =>
             let retransmit := is_rack_other pn b0 && (if fix_rack k then i <=? n_nak k + 1 else true) in
             if fix_wtx_try k then
-              if is_wtx b0 then with_ph pn (on_idx d 1 (fun _ => PSend off i d))
+              if is_wtx b0 then with_ph pn (if len d <? 2 then tagerr E_PROTOCOL else on_idx d 1 (fun _ => PSend off i d))
               else if retransmit then with_ph pn (PSend off (i + 1) (iblock k cmd pn off))
               else after_wtx k cmd pn off d b0
             else
@@ -139,7 +144,7 @@ Definition pcd_absorb (k : cfg) (cmd : bytes) (p : pcd) (a : aresult) : pcd :=
           if len d =? 0 then recv_error k pn i E_RECEIVE rsp
           else match idx d 0 with
           | Ok b0 =>
-            if fix_wtx_chain k && is_wtx b0 then with_ph pn (on_idx d 1 (fun _ => PRecv i d rsp))
+            if fix_wtx_chain k && is_wtx b0 then with_ph pn (if len d <? 2 then tagerr E_PROTOCOL else on_idx d 1 (fun _ => PRecv i d rsp))
             else if negb (Z.land b0 1 =? pn) then with_ph pn (tagerr E_PROTOCOL)
             else recv_check (toggle pn) b0 (rsp ++ tl d)
           | _ => with_ph pn (PDone (Crash IndexErr))
